@@ -42,12 +42,17 @@ CHECKS = {
         text="Lean 4: Spec/Setters.lean transcribes the ten API setters (state-override parser), validated on every run "
              "against all WPT setter vectors. Theorems (all values): every setter preserves the record invariants; the "
              "Standard's refusals; protocol setter keeps special-ness and clears default ports; the setter layer's "
-             "work-then-rollback model is atomic on failure. Both URL types are compared with the Spec after every step of "
+             "work-then-rollback model is atomic on failure; end to end for url_aggregator's set_username/set_password/"
+             "set_search/set_hash: the model of the C++ setter (precondition, encode, in-place editor of C07, limit check, "
+             "roll-back) applied to a record's buffer is the buffer of the Standard's setter result when it fits the limit "
+             "and the untouched buffer otherwise (these four setter models are tied to the real setters call by call in "
+             "C07's L1 run). Both URL types are compared with the Spec after every step of "
              "generated histories (all getters, origin, flags), failed steps are checked to leave every observable "
              "unchanged, and relative references are resolved against the object a history leaves behind.",
         design_ref="DESIGN.md §5 C03",
-        note="Setter conformance rests on the correspondence with the validated Spec (differential); the C++ setters are "
-             "not modelled statement by statement."),
+        note="partial: four component setters of url_aggregator are modelled and proved end to end; for the other setters "
+             "(href, protocol, host, hostname, port, pathname) and for ada::url conformance rests on the correspondence with "
+             "the validated Spec (differential)."),
     "C04": dict(
         technique="Lean 4 proof that the model of ada::url (get_href fast/general path, get_href_size, get_components) "
                   "computes the aggregator's layout for the same content; model tied to the real ada::url on every state; "
